@@ -595,6 +595,7 @@ func init() {
 				{Name: "aborted_neighbour", N: c.Pick(12, 120), Fn: c07AbortedNeighbour},
 				{Name: "concurrent_signed_requests", N: c.Pick(4, 40), Workers: 1, Fn: c07ConcurrentSigned},
 				{Name: "concurrent_first_use", N: c.Pick(10, 100), Fn: c16ConcurrentFirstUse},
+				{Name: "tenants_overlapping", N: c.Pick(30, 300), Fn: func(r *core.Run, idx int, rng *rand.Rand) { tenantOverlap(r, "tenants_overlapping", idx, rng) }},
 				{Name: "entropy_fault", N: c.Pick(2, 10), Workers: 1, Fn: c15Entropy},
 			}
 		},
